@@ -37,17 +37,18 @@ def simplify[T: Base](expr: T) -> T:
         simplification_cache[expr.hash()] = expr
         return expr
 
-    # dealing with annotations
-    if expr.annotations:
-        ast_args = tuple(a for a in expr.args if isinstance(a, Base))
-        annotations = tuple(
-            set(
-                chain(
-                    chain.from_iterable(a._relocatable_annotations for a in ast_args),
-                    tuple(a for a in expr.annotations),
-                )
+    # dealing with annotations (of the expression itself and the relocatable ones of its arguments: the expression has
+    # none of its own when they were removed from it, its arguments may still carry theirs)
+    ast_args = tuple(a for a in expr.args if isinstance(a, Base))
+    annotations = tuple(
+        set(
+            chain(
+                chain.from_iterable(a._relocatable_annotations for a in ast_args),
+                tuple(a for a in expr.annotations),
             )
         )
+    )
+    if annotations:
         if annotations != simplified.annotations:
             simplified = simplified.remove_annotations(simplified.annotations)
             simplified = simplified.annotate(*annotations)
